@@ -242,3 +242,30 @@ impl MatchableTrait for Nothing {
         Ok(MatchResult::empty_at(idx))
     }
 }
+
+/// Verification hooks (only with `--cfg sqruff_verif`): read-only accessors.
+#[cfg(sqruff_verif)]
+impl Ref {
+    pub fn verif_reference(&self) -> &str {
+        &self.reference
+    }
+    pub fn verif_exclude(&self) -> Option<&Matchable> {
+        self.exclude.as_ref()
+    }
+    pub fn verif_terminators(&self) -> &[Matchable] {
+        &self.terminators
+    }
+    pub fn verif_reset_terminators(&self) -> bool {
+        self.reset_terminators
+    }
+    pub fn verif_allow_gaps(&self) -> bool {
+        self.allow_gaps
+    }
+}
+
+#[cfg(sqruff_verif)]
+impl Anything {
+    pub fn verif_terminators(&self) -> &[Matchable] {
+        &self.terminators
+    }
+}
